@@ -44,7 +44,18 @@ pub static mut VNOW: u64 = 0;
 pub fn vnow() -> u64 {
     unsafe { VNOW }
 }
-pub fn vschedule_wake(_at: u64, _waker: &Waker) {}
+pub static mut LAST_WAKE_AT: u64 = 0;
+pub static mut WAKE_CALLS: u32 = 0;
+/// Stub for embassy_time_driver::schedule_wake: records the instant the caller asked to be woken at.
+pub fn vschedule_wake(at: u64, _waker: &Waker) {
+    unsafe {
+        LAST_WAKE_AT = at;
+        WAKE_CALLS += 1;
+    }
+}
+pub fn last_wake_at() -> u64 {
+    unsafe { LAST_WAKE_AT }
+}
 pub fn set_now(t: u64) {
     unsafe { VNOW = t }
 }
@@ -93,5 +104,37 @@ pub fn any_state() -> FrameState {
         5 => FrameState::RxBusy,
         6 => FrameState::RxDone,
         _ => FrameState::RxProcessing,
+    }
+}
+
+// ---- SubDevice construction (all fields are crate-visible) ------------------------------------
+pub fn mk_subdevice(configured_address: u16, index: u16) -> crate::SubDevice {
+    crate::SubDevice {
+        configured_address,
+        alias_address: 0,
+        config: Default::default(),
+        identity: Default::default(),
+        name: heapless::String::new(),
+        ports: Default::default(),
+        dc_support: crate::DcSupport::None,
+        dc_receive_time: 0,
+        index,
+        parent_index: None,
+        propagation_delay: 0,
+        mailbox_counter: core::sync::atomic::AtomicU8::new(1),
+        dc_sync: crate::DcSync::Disabled,
+        oversampling_config: &[],
+    }
+}
+
+// ---- pre-emption points (H3; only compiled into builds with --cfg ethercrab_verif_yield="on") ----
+// At a yield point inside a library function the harness may run steps of OTHER actors
+// (sequentialised bounded context switch, depth 1).
+pub static mut YIELD_HOOK: Option<fn(u32)> = None;
+pub fn yield_point(site: u32) {
+    unsafe {
+        if let Some(f) = YIELD_HOOK {
+            f(site)
+        }
     }
 }
